@@ -1,12 +1,13 @@
 """C15 - all ways of building a class from symbols yield the same model."""
 from contracts.c03_symbols import LagsLeadsContract
+from contracts.c15_build import BuildModel
 from contracts.c15_templates import CONTRACTS as TEMPLATE_CONTRACTS
 from props.parser_bounded import BuildVariants
 from verif.spec import PropertySpec
 
 PROPERTY = PropertySpec(
     id='C15',
-    contracts=[LagsLeadsContract()] + list(TEMPLATE_CONTRACTS),
+    contracts=[LagsLeadsContract()] + list(TEMPLATE_CONTRACTS) + [BuildModel()],
     bounded=[BuildVariants()],
     level='other',
     explanation='build_model_definition is executed symbolically from its source on symbol lists of length <= 2 with symbolic contents: the '
